@@ -4,6 +4,7 @@ import (
 	"os"
 	"strings"
 	"testing"
+	"time"
 
 	"verif/harness"
 	m "verif/internal/model"
@@ -16,10 +17,14 @@ func fp(f float64) *float64 { return &f }
 func probeDesign() *m.Design {
 	mk := func(v *m.Validation, k m.Kind) *m.Attr { a := m.Prim(k); a.V = v; return a }
 	arr := func(e *m.Attr) *m.Attr { return &m.Attr{Type: &m.Type{Kind: m.Array, Elem: e}} }
-	return &m.Design{API: m.API{Name: "probe", Server: true}, Services: []*m.Service{
+	pair := &m.UserType{Name: "Pair", Var: "v1", Result: true, Identifier: "application/vnd.pair",
+		Attr:  rt.Obj(&m.Field{Name: "id", Attr: m.Prim(m.Int64), Required: true, Tag: 1}, &m.Field{Name: "title", Attr: m.Prim(m.String), Required: true, Tag: 2}),
+		Views: []*m.View{{Name: "default", Fields: []m.ViewField{{Name: "id"}, {Name: "title"}}}, {Name: "tiny", Fields: []m.ViewField{{Name: "id"}}}}}
+	return &m.Design{API: m.API{Name: "probe", Server: true}, Types: []*m.UserType{pair}, Services: []*m.Service{
 		{Name: "probe", HasGRPC: true, Methods: []*m.Method{
 			{Name: "min", Payload: mk(&m.Validation{Min: fp(5)}, m.Int), GRPC: &m.GRPCEndpoint{}},
 			{Name: "big", Payload: rt.Obj(&m.Field{Name: "n", Attr: m.Prim(m.Int), Tag: 1}, &m.Field{Name: "u", Attr: m.Prim(m.UInt), Tag: 2}), GRPC: &m.GRPCEndpoint{}},
+			{Name: "viewed", Result: m.UserRef("Pair"), GRPC: &m.GRPCEndpoint{}},
 			{Name: "coll", Payload: rt.Obj(&m.Field{Name: "tags", Attr: arr(m.Prim(m.String)), Required: true, Tag: 1}, &m.Field{Name: "x", Attr: m.Prim(m.String), Tag: 2}), GRPC: &m.GRPCEndpoint{}},
 		}},
 		{Name: "health", HasHTTP: true, Methods: []*m.Method{{Name: "ping", HTTP: &m.HTTPEndpoint{Routes: []m.Route{{Verb: "GET", Path: "/ping"}}}}}}}}
@@ -78,5 +83,28 @@ func TestProbes(t *testing.T) {
 			e = o.ClientErr.Text
 		}
 		return o.StubCalls == 0 && e != "", "payload {tags: [] (required, empty), x: \"a\"}: rejected with " + e
+	})
+	// last: this probe kills the harness process while the finding is open
+	rt.Probe("C10-viewed-result-required-attribute-outside-the-view-panics", func() (bool, string) {
+		o, err := h.Do(&harness.Case{Op: "call", Transport: "grpc", Svc: "probe", Method: "viewed",
+			Stub: harness.StubSpec{HasResult: true, View: "tiny", Result: value.Object(f("id", value.Int(1)), f("title", value.Str("t")))}})
+		if err != nil {
+			// the gRPC server does not recover panics: the harness process dies
+			st := h.Stderr()
+			for i := 0; i < 50 && !strings.Contains(st, "goroutine"); i++ {
+				time.Sleep(20 * time.Millisecond) // stderr is copied by another goroutine
+				st = h.Stderr()
+			}
+			if strings.Contains(st, "nil pointer dereference") && strings.Contains(st, "NewProtoViewedResponse") {
+				return true, "result type rendered with the view \"tiny\" (required attribute title is outside the view): the generated server conversion NewProtoViewedResponse dereferences the nil attribute and the server process crashes"
+			}
+			t.Fatalf("INCONCLUSIVE: %v", err)
+		}
+		ce := ""
+		if o.ClientErr != nil {
+			ce = o.ClientErr.Text
+		}
+		ok := o.ClientErr == nil && o.HasResult && strings.Contains(strings.ToLower(o.Result.Canon()), "id:1")
+		return !ok, "result type rendered with the view \"tiny\" (required attribute title is outside the view): client got " + o.Result.Canon() + " error " + ce + " grpc code " + o.GRPCCode
 	})
 }
